@@ -16,6 +16,8 @@ Lemma slice_prefix {A} (a b : list A) n : n = len a -> slice (Some 0) (Some n) (
 Proof. intros ->. apply slice_app_l. Qed.
 Lemma slice_suffix {A} (a b : list A) n : n = len a -> slice (Some n) None (a ++ b) = b.
 Proof. intros ->. apply slice_app_r. Qed.
+Lemma slice_head {A} (a rest : list A) n : n = len a -> slice None (Some n) (a ++ rest) = a.
+Proof. intros ->. apply slice_none_l. Qed.
 Lemma slice_nil {A} lo hi : slice lo hi (@nil A) = [].
 Proof. unfold slice. cbn [skipn]. destruct (Z.to_nat _); destruct (Z.to_nat _); reflexivity. Qed.
 
